@@ -26,4 +26,10 @@ Theorem gen_stepwise_ops_are_model (p q : pb) (f : N -> N -> N) (g : N -> N) (c 
 Proof.
   repeat split; unfold gen_pneg, gen_precip, gen_pnum, gen_punary, gen_penv, gen_pimp; rewrite ?gen_constructor_is_model; reflexivity.
 Qed.
+Theorem gen_power_is_model (powf : N -> N -> N) (route0 : pb -> N -> res pb) (p : pb) (c : N) :
+  gen_ppow N steps p_lo p_hi powf route0 p c = ppow N steps p_lo p_hi powf route0 p c.
+Proof.
+  unfold gen_ppow, ppow. destruct (_ && _); [reflexivity|]. destruct (_ && _); [reflexivity|].
+  unfold gen_pnum; rewrite gen_constructor_is_model; reflexivity.
+Qed.
 End T.
